@@ -312,6 +312,8 @@ class PLru(PairBase):
         name = op[0]
         labels = []
         nexp = r.ns.n_expired()
+        if len(op) > 1 and isinstance(op[1], (list, dict)):
+            labels.append("unhashable-key")
         if name in ("set", "put"):
             _, k, v = op
             ev0 = r.evicted
@@ -400,6 +402,8 @@ class PMgr(PairBase):
         name = op[0]
         labels = []
         nexp = sum(o.n_expired() for _, o in r.ns)
+        if len(op) > 2 and isinstance(op[2], (list, dict)):
+            labels.append("unhashable-key")
         if name == "set":
             _, ns, k, v = op
             ev0 = r.evicted
@@ -828,10 +832,10 @@ def _strategies(family):
     keys = st.integers(0, 7)
     vals = st.integers(0, 3)
     adv = st.integers(0, 8).map(lambda i: ["adv", i * 0.75])
-    ttl = st.sampled_from([0, 0, 2, 5, 10])
-    cap = st.sampled_from([0, 1, 2, 3, 4, 6, 9])
+    ttl = st.sampled_from([2, 0, 5, 0, 10])
+    cap = st.sampled_from([2, 1, 3, 4, 0, 6, 9])
     if family == "lrubytes":
-        cfg = st.fixed_dictionaries({"me": st.sampled_from([0, 1, 2, 3, 5, 8]), "mb": st.sampled_from([0, 0, 5, 10, 20])})
+        cfg = st.fixed_dictionaries({"me": st.sampled_from([2, 0, 1, 3, 5, 8]), "mb": st.sampled_from([10, 0, 0, 5, 20])})
         cost = st.one_of(st.integers(0, 12), st.integers(0, 4), st.sampled_from([-1, -3, 0, 21]))
         return cfg, st.one_of(st.tuples(st.just("put"), keys, st.integers(0, 99), cost).map(list),
                               st.tuples(st.just("put"), keys, st.integers(0, 99), cost).map(list),
@@ -853,10 +857,11 @@ def _strategies(family):
                               st.sampled_from([["items"]] * 6 + [["invalidate"], ["clear"]]))
     if family == "manager":
         cfg = st.fixed_dictionaries({"max": cap, "ttl": ttl})
-        ns = st.sampled_from(["t2:semantic", "t1", "x"])
-        return cfg, st.one_of(st.tuples(st.just("set"), ns, ukeys, vals).map(list), st.tuples(st.just("set"), ns, ukeys, vals).map(list),
-                              st.tuples(st.just("get"), ns, ukeys).map(list), st.tuples(st.just("get"), ns, ukeys).map(list), adv,
-                              st.one_of(st.tuples(st.just("inv_ns"), st.sampled_from(["t1", "x", "never"])).map(list),
+        ns = st.sampled_from(["t2:semantic", "t2:semantic", "t1"])
+        mkeys = st.one_of(st.integers(0, 3), st.integers(0, 3), ukeys)
+        return cfg, st.one_of(st.tuples(st.just("set"), ns, mkeys, vals).map(list), st.tuples(st.just("set"), ns, mkeys, vals).map(list),
+                              st.tuples(st.just("get"), ns, mkeys).map(list), st.tuples(st.just("get"), ns, mkeys).map(list), adv,
+                              st.one_of(st.tuples(st.just("inv_ns"), st.sampled_from(["t1", "t2:semantic", "never"])).map(list),
                                         st.just(["inv_all"]), adv, adv, adv))
     if family == "detlru":
         cfg = st.fixed_dictionaries({"cap": cap, "ug": st.booleans(), "up": st.booleans()})
@@ -1258,6 +1263,73 @@ def _round_labels(case):
     return common, labels
 
 
+def _relabel(progs):
+    """Values are '<thread>.<seq>': renumber after a structural change."""
+    out = []
+    for t, prog in enumerate(progs):
+        seq = 0
+        np_ = []
+        for op in prog:
+            op = list(op)
+            if op[0] == "put":
+                op[2] = f"{t}.{seq}"
+                seq += 1
+            np_.append(op)
+        out.append(np_)
+    return out
+
+
+def _fails(case, tries):
+    """Re-execute under fresh schedules; -> Violation or None."""
+    for i in range(tries):
+        c = dict(case)
+        c["tseed"] = case["tseed"] + 7919 * i
+        if c["p"] == 0 and i % 2:
+            c["p"] = 0.1
+        results, errors, wrapped, inner = execute_round(c)
+        try:
+            check_round(c, results, errors, wrapped, inner)
+        except Violation as v:
+            return v
+    return None
+
+
+def shrink_round(case, first, budget=60, tries=12):
+    """Greedy structural shrinking of a failing thread programme (drop threads, halve programmes, drop single ops).
+    A candidate is kept when it fails again (any oracle) within `tries` fresh schedules."""
+    best, best_v = case, first
+    progress = True
+    while progress and budget > 0:
+        progress = False
+        progs = best["progs"]
+        cands = []
+        if len(progs) > 2:
+            cands += [[p for j, p in enumerate(progs) if j != i] for i in range(len(progs))]
+        for i, p in enumerate(progs):
+            if len(p) > 1:
+                cands.append([q if j != i else q[: len(q) // 2] for j, q in enumerate(progs)])
+                cands.append([q if j != i else q[len(q) // 2:] for j, q in enumerate(progs)])
+        if sum(len(p) for p in progs) <= 12:
+            for i, p in enumerate(progs):
+                for k in range(len(p)):
+                    if len(p) > 1:
+                        cands.append([q if j != i else q[:k] + q[k + 1:] for j, q in enumerate(progs)])
+        for cp in cands:
+            if budget <= 0:
+                break
+            budget -= 1
+            c = dict(best)
+            c.pop("observed", None)
+            c["progs"] = _relabel(cp)
+            c["small"] = len(cp) <= 3 and all(len(p) <= 3 for p in cp)
+            v = _fails(c, tries)
+            if v is not None:
+                best, best_v = c, v
+                progress = True
+                break
+    return best_v
+
+
 def sub_threads(rec, seed, shard, nshards, rounds=50, small_frac=0.5):
     rng = random.Random(seed)
     for _ in range(rounds):
@@ -1266,6 +1338,7 @@ def sub_threads(rec, seed, shard, nshards, rounds=50, small_frac=0.5):
         try:
             check_round(case, results, errors, wrapped, inner)
         except Violation as v:
+            v = shrink_round(case, v)
             rec.violation(v.message, v.case, v.sig)
             return
         common, labels = _round_labels(case)
@@ -1274,17 +1347,12 @@ def sub_threads(rec, seed, shard, nshards, rounds=50, small_frac=0.5):
 
 
 def replay_threads(case):
+    # the schedule itself cannot be replayed: re-execute the programme under 60 fresh perturbed schedules
     case = dict(case)
-    obs = case.pop("observed", None)
-    # 1) the recorded history itself (deterministic part: was it linearizable / consistent?) cannot be re-judged without
-    #    the live objects, so 2) re-execute the programme repeatedly under fresh schedules
-    for i in range(40):
-        c = dict(case)
-        c["tseed"] = case["tseed"] + i
-        if i % 2 and c["p"] == 0:
-            c["p"] = 0.1
-        results, errors, wrapped, inner = execute_round(c)
-        check_round(c, results, errors, wrapped, inner)
+    case.pop("observed", None)
+    v = _fails(case, 60)
+    if v is not None:
+        raise v
 
 
 # =================================================================================================
@@ -1304,7 +1372,7 @@ def merge_cases():
         wkeys = draw(st.lists(st.integers(0, 9), min_size=nworkers, max_size=nworkers, unique=True))
         workers = []
         for wk in wkeys:
-            kind = draw(st.sampled_from(["lrucache", "lrubytes", "detlru"]))
+            kind = draw(st.sampled_from(["lrucache", "lrubytes", "detlru", "tslru"]))
             script = draw(st.lists(st.one_of(st.tuples(st.just("put"), keys, vals).map(list),
                                              st.tuples(st.just("put"), keys, vals).map(list),
                                              st.tuples(st.just("get"), keys).map(list)), max_size=8))
@@ -1328,12 +1396,15 @@ _KORDER = {"id": lambda k: (k,), "neg": lambda k: (-k,), "str": lambda k: str(k 
 
 
 def _build_worker(w):
-    from clematis.engine.cache import LRUCache
+    from clematis.engine.cache import LRUCache, ThreadSafeCache
     from clematis.engine.util.lru_bytes import LRUBytes
     from clematis.engine.util.lru_det import DeterministicLRU
 
     if w["kind"] == "lrucache":
         c = LRUCache(max_entries=w["cap"], ttl_s=0)
+        put = c.put
+    elif w["kind"] == "tslru":
+        c = ThreadSafeCache(LRUCache(max_entries=w["cap"], ttl_s=0))
         put = c.put
     elif w["kind"] == "lrubytes":
         c = LRUBytes(w["cap"], 0)
